@@ -287,12 +287,13 @@ Theorem wide_str_roundtrip : forall s rest,
   wide_str (enc_wide s ++ rest) = Ok (s, 4 + utf16_len s * 2).
 Proof.
   intros s rest Hs Hlen. unfold wide_str, enc_wide. rewrite <- app_assoc.
-  rewrite read_u32_le_inv by assumption. cbn [obind].
   set (bs := bytes_le_of_units (utf16_encode s)).
   assert (Hb : length bs = (2 * length (utf16_encode s))%nat) by apply bytes_le_length.
   assert (Hl : length (u32_le (utf16_len s) ++ bs ++ rest) = (4 + length bs + length rest)%nat).
   { rewrite !app_length. reflexivity. }
   rewrite Hl.
+  destruct (N.of_nat (4 + length bs + length rest) <? 4) eqn:E4; [lia|].
+  rewrite read_u32_le_inv by assumption. cbn [obind].
   destruct (N.of_nat (4 + length bs + length rest) <? 4 + utf16_len s * 2) eqn:E.
   { unfold utf16_len in E. lia. }
   f_equal. f_equal.
@@ -356,3 +357,14 @@ Proof. vm_compute. reflexivity. Qed.
 Example wide_str_feff_witness :
   wide_str (enc_wide [65279; 97] ++ [1; 2]) = Ok ([65279; 97], 8).
 Proof. vm_compute. reflexivity. Qed.
+
+(* ---------- totality (C06): no byte string makes wide_str panic ---------- *)
+Theorem wide_str_no_panic : forall buf, wide_str buf <> Panic.
+Proof.
+  intro buf. unfold wide_str.
+  destruct buf as [|b0 [|b1 [|b2 [|b3 r]]]]; try (cbn; discriminate).
+  destruct (N.of_nat (length (b0 :: b1 :: b2 :: b3 :: r)) <? 4); [discriminate|].
+  cbn [read_u32_le obind].
+  destruct (N.of_nat (length (b0 :: b1 :: b2 :: b3 :: r)) <? 4 + (b0 + 256 * b1 + 65536 * b2 + 16777216 * b3) * 2);
+    discriminate.
+Qed.
